@@ -15,6 +15,12 @@ FAMILIES = {
     "energy": ["erg", "J"],
     "dimensionless": ["dimensionless"],
     "temperature": ["K"],
+    # electromagnetic units: Gaussian-cgs and SI ones are different dimensions and must never be inter-converted
+    "magnetic_gaussian": ["G", "mG"],
+    "magnetic_SI": ["T"],
+    "electric_SI": ["V/m"],
+    "capacitance": ["F"],
+    "resistance": ["ohm"],
 }
 FAMILIES_QUICK = {
     "length": ["cm", "m", "au"],
@@ -25,6 +31,12 @@ FAMILIES_QUICK = {
     "energy": ["erg", "J"],
     "dimensionless": ["dimensionless"],
     "temperature": ["K"],
+    # electromagnetic units: Gaussian-cgs and SI ones are different dimensions and must never be inter-converted
+    "magnetic_gaussian": ["G", "mG"],
+    "magnetic_SI": ["T"],
+    "electric_SI": ["V/m"],
+    "capacitance": ["F"],
+    "resistance": ["ohm"],
 }
 
 
